@@ -187,7 +187,9 @@ void env_deallocate__pA_pE_ul (struct Alloc *a, Elem *p, unsigned long n)
   __CPROVER_assert (p != 0 && __CPROVER_DYNAMIC_OBJECT (p) && OFF (p) == 0, "[C04] deallocate of a pointer that is not the start of an allocator block");
   __CPROVER_assert (__CPROVER_OBJECT_SIZE (p) == n * ESZ, "[C04] deallocate with an element count different from the allocation's");
   __CPROVER_assert (!(p == WB && !(WBL && WBN == n)), "[C04] deallocate of a block that is not live with this count");
+#ifndef ALLOC_ALWAYS_EQUAL
   __CPROVER_assert (!(p == WB && WBA != a->id), "[C04,C07] deallocate through an allocator not equal to the one that allocated the block");
+#endif
 #define NOLIVE1(i) __CPROVER_assert (!(SAMEOBJ (WP[i], p) && LIVE (i)), "[C03] block given back while it still holds a live element");
   FORALLW (NOLIVE1)
   dealloc_calls++;
